@@ -4,7 +4,7 @@ PROP = {
     "level": "proof",
     "harness_cmd": "c03",
     "run_file": "Run/C03Run.v",
-    "obligation_files": ["Props/C03.v", "Syn/ParseRel.v", "Syn/ParseProofs.v", "Syn/ParseSound.v", "Syn/ParseTotal.v", "Syn/ParseCor.v", "Syn/Full.v", "Syn/FullRel.v", "Syn/FullProofs.v"],
+    "obligation_files": ["Props/C03.v", "Syn/ParseRel.v", "Syn/ParseProofs.v", "Syn/ParseSound.v", "Syn/ParseTotal.v", "Syn/ParseCor.v", "Syn/Full.v", "Syn/FullRel.v", "Syn/FullProofs.v", "Syn/TextToAst.v"],
     "trusted_base": [KERNEL, HARNESS, NOAX,
                      "modelled, not verified: coq/Syn/Parse.v is hand-written after parser2.go (one Gallina function per Go function: parseLet, parseExpression, parseOp and its loop, parseUnary, parseNonOperator and its postfix loop, parseLiteral, the switch loop, parseArgs, parseMap, parseIdentList, Identifiers chain) and tied to the implementation by AST-for-AST correspondence on the token lists the real tokenizer delivered (hook verif_hooks_parse.go: token stream + AST dump incl. Operator, Priority, OuterIdents, Recursive, ThisName)",
                      "the specification side coq/Syn/Render.v (rendering trees, wf / flatten / erase, follow bound) is what 'groups by priority' means here; the Go generator has its own implementation of the same rule and the real parser's AST is compared with the generator's tree independently of Coq"],
